@@ -31,6 +31,17 @@ NS = {"p": p, "np": np, "immutabledict": immutabledict, "Fraction": Fraction, "f
       **{c.__name__: c for c in U.USER_CLASSES}}
 
 
+def tower(family, depth):
+    """a construct nested in itself `depth` times (built by a loop: Python's own parser refuses
+    source nested that deeply)"""
+    from vf.gen import scale
+    x = p.Variable("x")
+    return scale.nest(scale.family_towers()[family], depth, p.Sum((x, p.Variable("name_" + family[:3]))))
+
+
+NS["tower"] = tower
+
+
 def build(recipe):
     if recipe["kind"] == "compiled":
         v = recipe["vars"]
@@ -84,17 +95,34 @@ ARGS = [Fraction(3, 2), -2, 5, 7, Fraction(1, 4), 3]
 def produce(recipes, out, protocols):
     with open(out, "w") as f:
         for r in recipes:
+            if r["kind"] == "deepexpr":
+                # too deep to pickle: only the persistent keys (or their refusal) travel
+                ev = dict(base("producer"), recipe=r["id"], op="digest", proto=-1, hash_first=False)
+                try:
+                    ev["digests"] = digests(build(r))
+                except Exception as ex:  # noqa: BLE001
+                    ev["error"] = f"{type(ex).__name__}: {ex}"
+                f.write(json.dumps(ev) + "\n")
+                continue
             for proto in protocols:
-                for hash_first in (False, True):
+                # what the producer did with the object BEFORE pickling it: nothing, hashed it,
+                # computed its persistent key, or both (each leaves a cached value on the object)
+                for hash_first in (False, True, "key", "hash+key", "key+hash"):
+                    if r["kind"] != "expr" and hash_first not in (False, True):
+                        continue
                     ev = dict(base("producer"), recipe=r["id"], op="pickle", proto=proto,
                               hash_first=hash_first)
                     try:
                         e = build(r)
                         if r["kind"] == "expr":
-                            if hash_first:
+                            if hash_first == "key+hash":
+                                digests(e)
+                            if hash_first in (True, "hash+key", "key+hash"):
                                 ev["hash"] = hash(e)
                                 {e: 1}          # noqa: B018  (dict insertion caches the hash too)
                                 e == build(r)   # noqa: B015
+                            if hash_first in ("key", "hash+key"):
+                                digests(e)
                         ev["blob"] = base64.b64encode(pickle.dumps(e, protocol=proto)).decode()
                         if r["kind"] == "expr":     # after pickling: must not pre-hash "hash-after" cases
                             ev["digests"] = digests(e)
@@ -126,6 +154,13 @@ def consume(recipes, producer_log, out):
                 if r["id"] not in local:
                     local[r["id"]] = build(r)
                 mine = local[r["id"]]
+                if r["kind"] == "deepexpr":
+                    ev["digests"] = digests(mine)
+                    if ev["digests"] != pe["digests"]:
+                        ev["problems"].append(f"deep: persistent keys here {ev['digests']}, in the "
+                                              f"producer {pe['digests']}")
+                    f.write(json.dumps(ev) + "\n")
+                    continue
                 got = pickle.loads(base64.b64decode(pe["blob"]))
                 if r["kind"] == "compiled":
                     n = len(r["allvars"])
